@@ -312,7 +312,11 @@ def exhaustive_cases(tier):
                         k += 1
                         if k % stride:
                             continue
-                        yield {"ra": ra, "rb": rb, "A": list(A), "B": list(B)}
+                        yield {"ra": ra, "rb": rb, "A": list(A), "B": list(B),
+                               "symm": "Z2"}
+                        if tier != "quick" or k % (stride * 3) == 0:
+                            yield {"ra": ra, "rb": rb, "A": list(A),
+                                   "B": list(B), "symm": "U1"}
 
 
 SIZES = [{0: 1, 1: 2}, {0: 2, 1: 1}, {0: 1, 1: 1}]
@@ -329,6 +333,7 @@ def _mask(key, n):
 def law_exhaustive(ch):
     case = ch.draw(None, "case")
     ra, rb, A, B = case["ra"], case["rb"], case["A"], case["B"]
+    symm = case.get("symm", "Z2")
     fb = [i for i in range(rb) if i not in B]
     n = 0
     nt = False
@@ -345,11 +350,12 @@ def law_exhaustive(ch):
                 for pb in (0, 1):
                     specs = []
                     for idxs, par, lab in ((ia, pa, 3), (ib, pb, 2)):
-                        secs = gen.spec_valid_sectors("Z2", idxs, par)
+                        # (for U1 the total charge is the parity itself: 0 / 1)
+                        secs = gen.spec_valid_sectors(symm, idxs, par)
                         m = _mask((case, duals_a, duals_fb, pa, pb, lab),
                                   len(secs)) if secs else []
                         specs.append({
-                            "symm": "Z2", "ferm": True, "dyn": False,
+                            "symm": symm, "ferm": True, "dyn": False,
                             "idxs": idxs, "charge": par,
                             "sectors": [s for s, q in zip(secs, m) if q],
                             "nvalid": len(secs), "seed": n, "dtype": "float64",
@@ -362,7 +368,7 @@ def law_exhaustive(ch):
                     n += 1
                     nt = nt or (has_two_odd(sa) and bool(A))
     ch.count("inner", n)
-    ch.label(f"ranks={ra},{rb}/ncon={len(A)}")
+    ch.label(f"{symm}/ranks={ra},{rb}/ncon={len(A)}")
     ch.mark_nontrivial(nt)
 
 
@@ -381,6 +387,7 @@ LAWS = [
     Law("einsum", law_einsum, quick=800, thorough=12000,
         doc="single-array einsum (traces + permutation)"),
     Law("exhaustive", law_exhaustive, kind="enum", cases=exhaustive_cases,
-        doc="Z2: every rank pair <=3, dualness pattern, ordered choice of "
-            "contracted axes, parity pair, both modes (quick: 1/5 stride)"),
+        doc="Z2 and U1 (charges 0/1): every rank pair <=3, dualness pattern, "
+            "ordered choice of contracted axes, parity pair, both modes "
+            "(quick: 1/5 stride of Z2, 1/15 of U1)"),
 ]
